@@ -259,6 +259,17 @@ func checkC06(sc *Script, rec *evid.Rec) (vs []pbt.Violation) {
 			switch m.Type {
 			case rig.TLogon:
 				verdict, tags := LogonVerdict(cfg, m)
+				if cfg.Role == "acceptor" && verdict != "damaged" && verdict != "unparsable" {
+					// whatever the answer is, it carries the identifiers mirrored from this Logon
+					for _, o := range fresh {
+						snd, _ := o.Get(rig.TagSenderCompID)
+						tgt, _ := o.Get(rig.TagTargetCompID)
+						if snd != "LIB" || tgt != "PEER" {
+							vs = append(vs, pbt.V("answer-identifiers:"+o.Type, "step %d: the %s answering a Logon from PEER to LIB carries SenderCompID %q / TargetCompID %q: %s", i, o.Type, snd, tgt, o.String()))
+							break
+						}
+					}
+				}
 				abstract += "|L:" + verdict + "@" + before
 				switch before {
 				case "waiting":
